@@ -194,4 +194,8 @@ def _module_state():
     st['meta_valid_keys'] = [list(metadata.RegionMeta.valid_keys), list(metadata.RegionVisual.valid_keys),
                              sorted(metadata.RegionMeta.key_mapping.items()), sorted(metadata.RegionVisual.key_mapping.items())]
     st['pixcoord_defaults'] = [pixcoord._DEFAULT_WCS_ORIGIN, pixcoord._DEFAULT_WCS_MODE]
+    # process-wide settings of the numeric library that a call could leave changed
+    import numpy as np
+    st['numpy_errstate'] = sorted(np.geterr().items())
+    st['numpy_printoptions'] = sorted((k, repr(v)) for k, v in np.get_printoptions().items())
     return st
